@@ -30,7 +30,9 @@ def main():
         return mod.replay(ctx, rp) if hasattr(mod, "replay") else 2
     crashed = None
     try:
-        mod.run(ctx)
+        import contextlib, io
+        with contextlib.redirect_stdout(io.StringIO()):      # the implementation prints (e.g. SIP fit reports)
+            mod.run(ctx)
     except Exception:
         crashed = traceback.format_exc()
         ctx.notes.append("check crashed: " + crashed[-3000:])
